@@ -53,8 +53,11 @@ claim("C02", "E1",
 
 
 claim("C05", "E3+E5",
-      "static analysis: type-resolved error-discard census over MIR (Engler-style error discipline) + sibling-table agreement of the font assembly tables",
-      "Static decision of two structural necessary conditions of 'every emitted font is well-formed': (a) no serialisation or compile error is dropped "
+      "static analysis: type-resolved error-discard census over MIR (Engler-style error discipline) + sibling-table agreement of the font assembly tables + forward data-flow / CFG ordering rules for name-id remapping and table-builder emptiness verdicts",
+      "Static decision of structural necessary conditions of 'every emitted font is well-formed': (T2) count fields of emitted tables never come from the FEA override tables; "
+      "(T3) a table builder's is_empty() verdict - which decides whether the table is emitted at all - is taken after every field it reads is final (a half-filled "
+      "GDEF builder used to be droppable while GSUB/GPOS already referred to its mark glyph sets; seeded, not a defect of the pinned tree); (T4) every field that "
+      "receives a name id minted by the feature compiler is adjusted by remap_name_ids (found: the size feature's menu name id; repaired); (a) no serialisation or compile error is dropped "
       "between a job's table value and the bytes handed to the font builder, for every function reachable from the entry points (each of the "
       "type-resolved discard sites is audited or reported; the to_bytes().ok() defect that produced a font without a name table was found this way and "
       "repaired); (b) TABLES_TO_MERGE, font::has, font::bytes_for and FontWork::read_access agree arm by arm, list the required tables, and every table "
@@ -114,7 +117,9 @@ claim("C13", "E7+E4+E5",
       "before the recursive tree assembly and the rejected edges are honoured by it. (L1) a necessary condition of losslessness: a single owner of the "
       "source cursor, the lexer pulled only by Parser::advance, every advance paired with AstSink::token. (L3) a necessary condition of 'diagnostics "
       "point inside the source on char boundaries': ranges handed to diagnostics are token/node ranges, not byte arithmetic (the two `pos..pos+1` helpers "
-      "that could point one byte past the end or inside a multi-byte character were found by this rule and repaired). NOT decided: the lexer's loops (census "
+      "that could point one byte past the end or inside a multi-byte character were found by this rule and repaired). (L5) character counts never meet byte lengths or become "
+      "Range bounds in the front end (a `chars().count()` used as an offset slices inside a multi-byte character). (L6) the lexer builds an Eof lexeme only when "
+      "the input is exhausted (a NUL byte used to end the token stream silently; repaired). NOT decided: the lexer's loops (census "
       "with read reasons only, under C15/X10), panic-freedom outside parser.rs/grammar (lexer, token tree, validation), the truth of the audited "
       "reasons (they were read, not proved), exact equality of concatenated token texts with the input.",
       "Trusted: rustc MIR and const evaluation (TokenSet values); the primitive table in tables/e7_tables.json (Parser::do_bump/advance consume one "
@@ -150,12 +155,15 @@ claim("C18", "E2+E5",
 
 
 claim("C19", "E6",
-      "static analysis: census of narrowing sites named by MIR built with -C overflow-checks=on (IntToInt/FloatToInt casts, Assert(Overflow) on sub-64-bit integers, saturating ot_round / F2Dot14 / Fixed conversions) over the call-graph reach of every job, with an audited range table",
+      "static analysis: census of narrowing sites named by MIR built with -C overflow-checks=on (IntToInt/FloatToInt casts, Assert(Overflow) on sub-64-bit integers, saturating ot_round / F2Dot14 / Fixed conversions) over the call-graph reach of every job, with an audited range table; who-may-call + must-call-after rule for the cached overflow summaries",
       "Static decision of where a value can wrap, saturate or make debug and release builds disagree in the value path (fontbe/fontir/fontdrasil "
       "functions reachable from a job), and that each such place is bounded (recorded range argument), guarded, or a listed finding; a new "
       "unguarded narrowing is a violation. Boundary values and the two build profiles are exactly what tests do not sample: the suite runs "
       "unoptimised, where a wrapped value panics, while the shipped profile wraps silently. The 30 listed KNOWN findings are the unguarded "
       "saturating conversions of source-provided values (the reproduced advance 70000 -> 65535 family); the PaintColrLayers u8 wrap was repaired. "
+      "(CACHE) the guard that sends composites with out-of-range 2x2 transforms to the decomposition fallback reads summaries cached in ir::Glyph: every function that edits "
+      "instances through Glyph::sources_mut() and composes transforms rebuilds the glyph through Glyph::new (found: flatten_glyph clamped 2.25x to 1.99994; repaired), every other "
+      "caller is audited. "
       "NOT decided: conversions inside external crates (glyf coordinate rounding in write-fonts), shape preservation of fallbacks.",
       "Trusted: rustc MIR with overflow checks on; tables/e6_narrowing.json (verdict + reason per site group, keyed by function, kind and types "
       "with multiplicity); float `as` casts and write-fonts OtRound saturate. Findings are suppressed by exact key only.",
